@@ -726,6 +726,43 @@ def variant_only_case(rng):
             "pattern": "Some([(%s, _)])" % pat, "kinds": {"variant-only": 1}}
 
 
+def shape_only_case(rng):
+    """a pattern that asserts nothing but the SHAPE of a collection (its length, or nothing at all): every sub-pattern a wildcard
+    or none at all (`[]`, `[_]`, `[..]`, `#()`, `#(_, ..)`, `#{}`, `#{ .. }`, ...), on collections of 0..2 elements, at an element
+    position.  The length such a pattern states must still be checked wherever it is written."""
+    if rng.random() < 0.7:
+        n = rng.randint(0, 2)
+        ty, vr, vm = "Vec<i32>", "vec![%s]" % ", ".join(str(i + 1) for i in range(n)) if n else "Vec::<i32>::new()", \
+            "(vec%s)" % "".join(" (int %d)" % (i + 1) for i in range(n))
+        pat = rng.choice(["[]", "[]", "[_]", "[_, _]", "[..]", "[_, ..]", "[.., _]", "#()", "#()", "#(_)", "#(_, _)", "#(..)", "#(_, ..)"])
+    else:
+        n = rng.randint(0, 1)
+        ty = "BTreeMap<String, i32>"
+        vr = "BTreeMap::from([(\"a\".to_string(), 1)])" if n else "BTreeMap::<String, i32>::new()"
+        vm = "(map ((str %s) (int 1)))" % hx("a") if n else "(map)"
+        pat = rng.choice(["#{}", "#{}", "#{ .. }", "#{ \"a\": _ }", "#{ \"a\": _, .. }"])
+    k = {"shape-only": 1}
+    w = rng.choice(["some", "ok", "err", "slice", "slice2", "tuple", "tuple_idx", "nested", "field"])
+    if w == "some":
+        return {"type": "Option<%s>" % ty, "value_rust": "Some(%s)" % vr, "value_model": "(variant %s %s)" % (hx("Some"), vm), "pattern": "Some(%s)" % pat, "kinds": k}
+    if w == "ok":
+        return {"type": "Result<%s, String>" % ty, "value_rust": "Ok(%s)" % vr, "value_model": "(variant %s %s)" % (hx("Ok"), vm), "pattern": "Ok(%s)" % pat, "kinds": k}
+    if w == "err":
+        return {"type": "Result<i32, %s>" % ty, "value_rust": "Err(%s)" % vr, "value_model": "(variant %s %s)" % (hx("Err"), vm), "pattern": "Err(%s)" % pat, "kinds": k}
+    if w == "slice":
+        return {"type": "Vec<%s>" % ty, "value_rust": "vec![%s]" % vr, "value_model": "(vec %s)" % vm, "pattern": "[%s]" % pat, "kinds": k}
+    if w == "slice2":
+        return {"type": "Vec<%s>" % ty, "value_rust": "vec![%s, %s]" % (vr, vr), "value_model": "(vec %s %s)" % (vm, vm), "pattern": "[_, %s]" % pat, "kinds": k}
+    if w == "tuple":
+        return {"type": "(%s, i32)" % ty, "value_rust": "(%s, 7)" % vr, "value_model": "(tuple %s (int 7))" % vm, "pattern": "(%s, 7)" % pat, "kinds": k}
+    if w == "tuple_idx":
+        return {"type": "(i32, %s)" % ty, "value_rust": "(7, %s)" % vr, "value_model": "(tuple (int 7) %s)" % vm, "pattern": "(0: 7, 1: %s)" % pat, "kinds": k}
+    if w == "field":
+        return {"type": "(%s,)" % ty, "value_rust": "(%s,)" % vr, "value_model": "(tuple %s)" % vm, "pattern": "(%s,)" % pat, "kinds": k}
+    return {"type": "Option<Vec<(%s, i32)>>" % ty, "value_rust": "Some(vec![(%s, 7)])" % vr, "value_model": "(variant %s (vec (tuple %s (int 7))))" % (hx("Some"), vm),
+            "pattern": "Some([(%s, _)])" % pat, "kinds": k}
+
+
 def gen_case(rng, hit=None, closures=True):
     """one triple: returns dict(type, value_rust, value_model, pattern, kinds)"""
     if rng.random() < 0.12:
@@ -736,6 +773,8 @@ def gen_case(rng, hit=None, closures=True):
         return float_case(rng)
     if rng.random() < 0.06:
         return variant_only_case(rng)
+    if rng.random() < 0.06:
+        return shape_only_case(rng)
     t = rng.choice(ROOTS)
     vr, vm, pv = gen_value(rng, t)
     g = Gen(rng, hit if hit is not None else rng.choice([1.0, 0.9, 0.75, 0.6, 0.5]), closures)
